@@ -214,6 +214,26 @@ def result_arrays(D, out):
     return D.result_arrays(out)
 
 
+def agree(D, ts, method, kw, grid, c):
+    base = run_dating(D, ts, method, kw, grid, 1.0)
+    r = run_dating(D, ts, method, kw, grid, c)
+    if base[0] != "ok" or r[0] != "ok":
+        return False
+    scale = {"node_time": c, "mut_time": c, "node_mn": c, "mut_mn": c, "node_vr": c * c, "mut_vr": c * c}
+    d, _ = D.max_rel_diff(result_arrays(D, base[1]), result_arrays(D, r[1]), scale)
+    return d <= TOL[method]
+
+
+def rounding_sensitive_rescaling(D, ts, method, kw, grid, c):
+    """characterises known finding K10: the SAME input is equivariant for this c with the rescaling step
+    switched off, and equivariant with rescaling on for powers of two (which commute with rounding).  A
+    dimensional error or an absolute constant anywhere fails at least one of the two."""
+    off = dict(kw)
+    off["rescaling_intervals"] = 0
+    return agree(D, ts, method, off, grid, c) and agree(D, ts, method, kw, grid, 2.0) and \
+        agree(D, ts, method, kw, grid, 2.0 ** -13)
+
+
 def pipeline(ctx, n):
     from props import _dating as D
     for _ in range(n):
@@ -247,7 +267,11 @@ def pipeline(ctx, n):
             key = "max_rel_diff_" + method
             ctx.notes[key] = max(ctx.notes.get(key, 0.0), d if math.isfinite(d) else 1e99)
             if not d <= TOL[method]:
-                ctx.oracle_fail("pipeline:%s" % method, "time unit x %r: %s differs by %.3g relative (tolerance %g)" % (
+                sig = "pipeline:%s" % method
+                if method == "variational_gamma" and kw.get("rescaling_intervals", 1000) != 0 and \
+                        rounding_sensitive_rescaling(D, ts, method, kw, grid, c):
+                    sig += ":rounding-sensitive-rescaling-step"
+                ctx.oracle_fail(sig, "time unit x %r: %s differs by %.3g relative (tolerance %g)" % (
                     c, where, d, TOL[method]), replay)
 
 
